@@ -80,3 +80,11 @@ Example ex_fixed_pre : decode (str "```
 ```
 ") [] false.
 Proof. vm_compute. reflexivity. Qed.
+
+(* C17_chunk_independent_up_to_limit is not vacuous in its "prefix" part: on a
+   line of 65536 bytes one chunking is cut by ErrTooLong before the first token,
+   the other (io.EOF together with the data) returns the line and ends with io.EOF *)
+Example ex_up_to_limit_strict :
+  decode long_line [] false = ([], ETooLong) /\
+  length (fst (decode long_line [] true)) = 1 /\ snd (decode long_line [] true) = EEOF.
+Proof. vm_compute. repeat split; reflexivity. Qed.
